@@ -173,6 +173,14 @@ class RunObs:
             sc = sc[execno] if execno < len(sc) else (sc[-1] if sc else None)
         if not sc:
             return "ok", None
+        if sc.get("launch") == "mkdir":
+            # creating the output directory fails: only takes effect where there is a directory to create
+            # (a run_command / combine output directory persists between invocations)
+            before = getattr(self.step, "before", None)
+            tree = before["tree"] if before else {}
+            if self.tasks[task]["kind"] != "exp" and M.out_dir_rel(task) in tree:
+                sc = dict(sc)
+                sc.pop("launch")
         if sc.get("launch"):
             return "fail", "launch:" + sc["launch"]
         end = sc.get("end", ["exit", 0])
